@@ -95,8 +95,14 @@ class Ctx:
         e["VERIF_SEED"] = str(self.seed)
         if env:
             e.update(env)
-        p = subprocess.run([self.bin] + args, input=stdin, stdout=subprocess.PIPE, stderr=subprocess.PIPE,
-                           text=True, timeout=timeout, env=e, cwd=self.work)
+        def limit():   # a runaway scenario must not take the machine down: 12 GiB address space
+            import resource
+            resource.setrlimit(resource.RLIMIT_AS, (12 << 30, 12 << 30))
+        try:
+            p = subprocess.run([self.bin] + args, input=stdin, stdout=subprocess.PIPE, stderr=subprocess.PIPE,
+                               text=True, timeout=timeout, env=e, cwd=self.work, preexec_fn=limit)
+        except subprocess.TimeoutExpired:
+            raise ToolError("harness %s timed out after %ss" % (args, timeout))
         if p.returncode != 0:
             raise ToolError("harness %s exited %d:\n%s" % (args, p.returncode, p.stderr[-3000:]))
         return p.stdout
